@@ -125,6 +125,11 @@ class Unit:
         except x2c.LexError as e:
             raise Undecided(f"extraction break in unit {self.name}: {e}")
         self.ctext = '#include "iora_base.h"\n' + ''.join(f'#include "{h}"\n' for h in self.spec.get('shim_headers', [])) + ctext
+        if isinstance(rep, dict):
+            from . import ppcond
+            rep['conditional_compilation'] = {"evaluated_by": "g++ -std=c++17 -E on a marked copy (vt/ppcond.py)",
+                                              "arms_total_dropped": {k: list(v) for k, v in ppcond.evaluated.items()},
+                                              "not_evaluated": dict(ppcond.unevaluated)}
         self.report = rep
         with open(os.path.join(self.work, 'unit.c'), 'w') as f:
             f.write(self.ctext)
